@@ -183,7 +183,7 @@ Fixpoint aexec (cv : str -> option conv) (p : fu) (a : ast) : list aout :=
                                               | ARet a1 l v c => [ARet a1 l v c]
                                               | _ => []
                                               end) outs
-          else [AWrong loop_msg]
+          else AWrong loop_msg :: filter (fun o => match o with AWrong _ => true | _ => false end) outs
       end
   | FJump k => if k =? 0 then [ABrk a] else if k =? 1 then [ACnt a] else [AWrong jump_msg]
   | FRet lbl vs c =>
@@ -341,6 +341,22 @@ Definition expected_drops : list (str * str) := [
   (s2z "Relayer.handleLocalCallReq", s2z "return _relayShouldRelease")
 ].
 
+(* The places where a frame (or a struct that bears one) is stored into the heap, from where
+   other functions can reach it.  Each is accounted for in the interleaving model: the fragment
+   of a call's reader (PFrag: initialFragment / previousFragment, released through done()), the
+   fragment of a writer (PWFrag: curFragment, flushed by flushFragment), the lazy views of the
+   relay (alive only while the reader loop holds the frame).  A new store has to be reviewed. *)
+Definition expected_escapes : list (str * str) := [
+  (s2z "Connection.handleCallReq",          s2z "initialFragment");
+  (s2z "Relayer.newFragmentSender",         s2z "callReq");
+  (s2z "relayFragmentSender.newFragment",   s2z "frame");
+  (s2z "newLazyCallRes",                    s2z "Frame");
+  (s2z "newLazyCallReq",                    s2z "Frame");
+  (s2z "reqResWriter.newFragment",          s2z "frame");
+  (s2z "reqResReader.recvNextFragment",     s2z "previousFragment");
+  (s2z "reqResReader.recvNextFragment",     s2z "previousFragment")
+].
+
 (* ------------------------------------------------------------------ tie to the FrameOwn model *)
 
 (* the label numbers of Model/FrameOwn.v dec_label *)
@@ -358,26 +374,26 @@ Definition label_tag (l : label) : Z :=
    interleaving model whose step performs it.  (function, kind, target, labels) *)
 Definition xfer_model : list (str * str * str * list Z) := [
   (s2z "Connection.sendMessage",      s2z "Release", [],                 [9]);        (* LSendMsg c false *)
-  (s2z "Connection.sendMessage",      s2z "send",    s2z "c.sendCh",     [9]);        (* LSendMsg c true *)
+  (s2z "Connection.sendMessage",      s2z "send",    s2z "sendCh",     [9]);        (* LSendMsg c true *)
   (s2z "Connection.recvMessage",      s2z "Release", [],                 [20]);       (* LRecvMsg *)
   (s2z "Connection.SendSystemError",  s2z "Release", [],                 [8]);        (* LConnSysErr, not sent *)
-  (s2z "Connection.SendSystemError",  s2z "send",    s2z "c.sendCh",     [8]);        (* LConnSysErr, sent *)
+  (s2z "Connection.SendSystemError",  s2z "send",    s2z "sendCh",     [8]);        (* LConnSysErr, sent *)
   (s2z "Connection.readFrames",       s2z "Release", [],                 [1]);        (* LReadFail *)
   (s2z "Connection.readFrames",       s2z "Release", [],                 [2; 4; 6]);  (* LReadRel, refused LReadFwd / LRelaySend *)
-  (s2z "Connection.writeFrames",      s2z "Release", s2z "<-c.sendCh",   [27]);       (* LDrain *)
+  (s2z "Connection.writeFrames",      s2z "Release", s2z "<-sendCh",   [27]);       (* LDrain *)
   (s2z "Connection.writeFrames",      s2z "Release", [],                 [24]);       (* LWrite *)
   (s2z "fragmentingReader.Close",     s2z "done",    [],                 [17]);       (* LCloseLast *)
   (s2z "fragmentingReader.recvAndParseNextFragment", s2z "done", [],     [15]);       (* LFetch: fetch_done *)
-  (s2z "Connection.handleCallReq",    s2z "go",      s2z "c.dispatchInbound", [5]);   (* LReadCallReq *)
-  (s2z "messageExchange.forwardPeerFrame", s2z "send", s2z "mex.recvCh", [4]);        (* LReadFwd: room *)
-  (s2z "messageExchange.forwardPeerFrame", s2z "send", s2z "mex.recvCh", [4]);        (* LReadFwd: room, errCh notified *)
+  (s2z "Connection.handleCallReq",    s2z "go",      s2z "dispatchInbound", [5]);   (* LReadCallReq *)
+  (s2z "messageExchange.forwardPeerFrame", s2z "send", s2z "recvCh", [4]);        (* LReadFwd: room *)
+  (s2z "messageExchange.forwardPeerFrame", s2z "send", s2z "recvCh", [4]);        (* LReadFwd: room, errCh notified *)
   (s2z "messageExchange.recvPeerFrameOfType", s2z "Release", [],         [15; 20]);   (* error frame: LFetch / LRecvMsg *)
   (s2z "Channel.writeMessage",        s2z "Release", [],                 [0]);        (* LLocal c 1 *)
   (s2z "Channel.readMessage",         s2z "Release", [],                 [0]);        (* LLocal c 0 *)
-  (s2z "Relayer.Receive",             s2z "send",    s2z "r.conn.sendCh", [6; 7]);    (* LRelaySend, LRfsFrag *)
+  (s2z "Relayer.Receive",             s2z "send",    s2z "sendCh", [6; 7]);    (* LRelaySend, LRfsFrag *)
   (s2z "Relayer.handleLocalCallReq",  s2z "Release", [],                 [2]);        (* LReadRel c true *)
   (s2z "relayFragmentSender.flushFragment", s2z "Release", [],           [7]);        (* LRfsFrag: buffer full *)
-  (s2z "reqResWriter.flushFragment",  s2z "send",    s2z "w.conn.sendCh", [23]);      (* LWFlush *)
+  (s2z "reqResWriter.flushFragment",  s2z "send",    s2z "sendCh", [23]);      (* LWFlush *)
   (s2z "reqResReader.releasePreviousFragment", s2z "done", [],           [18; 19]);   (* LRespSysErr, LDispatchFail *)
   (s2z "parseInboundFragment",        s2z "closure Release", [],         [15; 17; 18; 19])  (* the onDone of every readableFragment: frag_done *)
 ].
